@@ -59,7 +59,7 @@ MUTANTS = [
     M("c06-wrapper-device-scale", "C06", "break", [(QBITS, "cls, size, strides=stride, dtype=scale.dtype, device=data.device", "cls, size, strides=stride, dtype=scale.dtype, device=scale.device")], "C06.R3"),
     M("c06-unflatten-swap", "C06", "break", [(QB, 'data, scale = inner_tensors["_data"], inner_tensors["_scale"]', 'scale, data = inner_tensors["_data"], inner_tensors["_scale"]')], "C06.R5"),
     M("c06-flatten-stride-of-data", "C06", "break", [(QB, '"stride": str(list(self.stride())),', '"stride": str(list(self._data.stride())),')], "C06.R5"),
-    M("c06-qbits-tocopy-zp-dtype", "C06", "break", [(QBOPS, "zeropoint = op(t._zeropoint, device=device, **kwargs)", "zeropoint = op(t._zeropoint, dtype=dtype, device=device, **kwargs)")], "C06.R4"),
+    M("c06-qbits-tocopy-zp-dtype", "C06", "break", [(QBOPS, "zeropoint = op(t._zeropoint, device=device, **scale_kwargs)", "zeropoint = op(t._zeropoint, dtype=dtype, device=device, **scale_kwargs)")], "C06.R4"),
     M("c06-qbits-detach-base-class", "C06", "break", [(QBOPS, "return t.__class__(t._qtype,", "return QBitsTensor(t._qtype,")], "C06.R4"),
     M("c06-cat-axis-from-t2", "C06", "break", [(OPS, "            return QBytesTensor(t1.qtype, t1.axis, out_data.size(), out_data.stride(), out_data, t1._scale)\n    return qfallback(op, inputs, dim)\n\n\n@register_qbytestensor_op([torch.ops.aten.lt])", "            return QBytesTensor(t1.qtype, 0, out_data.size(), out_data.stride(), out_data, t1._scale)\n    return qfallback(op, inputs, dim)\n\n\n@register_qbytestensor_op([torch.ops.aten.lt])")], "C06.R2"),
     M("c06-relu-payload-arith", "C06", "break", [(OPS, "    out_data = op(input._data)\n    return QBytesTensor(input.qtype, input.axis, input.size(), input.stride(), out_data, input._scale)\n\n\n@register_qbytestensor_op([torch.ops.aten._softmax])", "    out_data = op(input._data) + 0\n    return QBytesTensor(input.qtype, input.axis, input.size(), input.stride(), out_data, input._scale)\n\n\n@register_qbytestensor_op([torch.ops.aten._softmax])")], None),
